@@ -38,6 +38,24 @@ pub trait Fx: StarkField {
         None
     }
     fn exp_le(self, e: &[u8]) -> Self;
+    /// integer -> element conversions offered by this field for the integer v: (name, bits of the source type, fallible, result)
+    fn convs_to(v: u128) -> Vec<(&'static str, u32, bool, Option<Self>)>;
+    /// element -> integer conversions: (name, bits of the target type, result)
+    fn convs_from(self) -> Vec<(&'static str, u32, Option<u128>)>;
+}
+macro_rules! to_total {
+    ($out:ident, $v:ident, $t:ty, $bits:expr, $name:expr) => {
+        if $v < (1u128 << $bits) {
+            $out.push(($name, $bits, false, Some(Self::from($v as $t))));
+        }
+    };
+}
+macro_rules! to_try {
+    ($out:ident, $v:ident, $t:ty, $bits:expr, $name:expr) => {
+        if $bits == 128 || $v < (1u128 << ($bits % 128)) {
+            $out.push(($name, $bits, true, Self::try_from($v as $t).ok()));
+        }
+    };
 }
 fn le_u64(v: &[u8]) -> u64 {
     let mut b = [0u8; 8];
@@ -50,6 +68,22 @@ fn le_u128(v: &[u8]) -> u128 {
     u128::from_le_bytes(b)
 }
 impl Fx for f62::BaseElement {
+    fn convs_to(v: u128) -> Vec<(&'static str, u32, bool, Option<Self>)> {
+        let mut o = vec![];
+        to_total!(o, v, u8, 8, "From<u8>");
+        to_total!(o, v, u16, 16, "From<u16>");
+        to_total!(o, v, u32, 32, "From<u32>");
+        to_try!(o, v, u64, 64, "TryFrom<u64>");
+        to_try!(o, v, u128, 128, "TryFrom<u128>");
+        if v < (1u128 << 64) {
+            o.push(("TryFrom<[u8; 8]>", 64, true, Self::try_from((v as u64).to_le_bytes()).ok()));
+            o.push(("new(u64)", 64, false, Some(Self::new(v as u64))));
+        }
+        o
+    }
+    fn convs_from(self) -> Vec<(&'static str, u32, Option<u128>)> {
+        vec![("u64::from", 64, Some(u64::from(self) as u128)), ("u128::from", 128, Some(u128::from(self))), ("as_int", 64, Some(self.as_int() as u128))]
+    }
     fn from_le(v: &[u8]) -> Self {
         f62::BaseElement::new(le_u64(v))
     }
@@ -61,6 +95,28 @@ impl Fx for f62::BaseElement {
     }
 }
 impl Fx for f64::BaseElement {
+    fn convs_to(v: u128) -> Vec<(&'static str, u32, bool, Option<Self>)> {
+        let mut o = vec![];
+        if v < 2 {
+            o.push(("From<bool>", 1, false, Some(Self::from(v == 1))));
+        }
+        to_total!(o, v, u8, 8, "From<u8>");
+        to_total!(o, v, u16, 16, "From<u16>");
+        to_total!(o, v, u32, 32, "From<u32>");
+        to_try!(o, v, u64, 64, "TryFrom<u64>");
+        to_try!(o, v, u128, 128, "TryFrom<u128>");
+        if v < (1u128 << 64) {
+            o.push(("TryFrom<usize>", 64, true, Self::try_from(v as usize).ok()));
+            o.push(("TryFrom<[u8; 8]>", 64, true, Self::try_from((v as u64).to_le_bytes()).ok()));
+            o.push(("new(u64)", 64, false, Some(Self::new(v as u64))));
+        }
+        o
+    }
+    fn convs_from(self) -> Vec<(&'static str, u32, Option<u128>)> {
+        vec![("bool::try_from", 1, bool::try_from(self).ok().map(|b| b as u128)), ("u8::try_from", 8, u8::try_from(self).ok().map(|x| x as u128)),
+             ("u16::try_from", 16, u16::try_from(self).ok().map(|x| x as u128)), ("u32::try_from", 32, u32::try_from(self).ok().map(|x| x as u128)),
+             ("u64::from", 64, Some(u64::from(self) as u128)), ("u128::from", 128, Some(u128::from(self))), ("as_int", 64, Some(self.as_int() as u128))]
+    }
     fn from_le(v: &[u8]) -> Self {
         f64::BaseElement::new(le_u64(v))
     }
@@ -75,6 +131,19 @@ impl Fx for f64::BaseElement {
     }
 }
 impl Fx for f128::BaseElement {
+    fn convs_to(v: u128) -> Vec<(&'static str, u32, bool, Option<Self>)> {
+        let mut o = vec![];
+        to_total!(o, v, u8, 8, "From<u8>");
+        to_total!(o, v, u16, 16, "From<u16>");
+        to_total!(o, v, u32, 32, "From<u32>");
+        to_total!(o, v, u64, 64, "From<u64>");
+        to_try!(o, v, u128, 128, "TryFrom<u128>");
+        o.push(("new(u128)", 128, false, Some(Self::new(v))));
+        o
+    }
+    fn convs_from(self) -> Vec<(&'static str, u32, Option<u128>)> {
+        vec![("as_int", 128, Some(self.as_int()))]
+    }
     fn from_le(v: &[u8]) -> Self {
         f128::BaseElement::new(le_u128(v))
     }
@@ -196,12 +265,40 @@ where
     }
 }
 
+/// "conv" events: every integer <-> element conversion of the field for the integers of Gen_Field (Mode "convs")
+fn run_convs<B: Fx>(convs: &[Vec<u8>], out: &mut dyn Write)
+where
+    B::PositiveInteger: WriteInt,
+{
+    for vb in convs {
+        let v = le_u128(vb);
+        let r = guarded(|| {
+            let to: Vec<Value> = B::convs_to(v).into_iter().map(|(n, bits, fallible, r)| json!({"name": n, "bits": bits, "fallible": fallible, "ok": r.is_some(),
+                "r": r.map(|x| int_bytes(x)).unwrap_or_default()})).collect();
+            // the element of this integer's residue class through the reducing constructor, then every conversion back
+            let e = B::from_le(&vb[..B::ELEMENT_BYTES.min(vb.len())]);
+            let from: Vec<Value> = e.convs_from().into_iter().map(|(n, bits, r)| json!({"name": n, "bits": bits, "ok": r.is_some(),
+                "r": r.map(|x| x.to_le_bytes().to_vec()).unwrap_or_default()})).collect();
+            json!({"ev": "conv", "v": vb, "to": to, "src": &vb[..B::ELEMENT_BYTES.min(vb.len())], "elem": int_bytes(e), "from": from})
+        });
+        match r {
+            Ok(e) => writeln!(out, "{}", e).unwrap(),
+            Err(p) => writeln!(out, "{}", json!({"ev": "panic", "op": "conv", "a": vb, "b": [], "what": panic_key(&p)})).unwrap(),
+        }
+    }
+}
+
 pub fn main(args: &[String]) -> i32 {
     let path = arg_value(args, "--scenarios").expect("--scenarios");
     let field = arg_value(args, "--field").expect("--field");
     let outp = arg_value(args, "--out").expect("--out");
     let f = std::io::BufReader::new(std::fs::File::open(path).expect("open"));
-    let scns: Vec<Scn> = f.lines().map(|l| l.unwrap()).filter(|l| !l.trim().is_empty()).map(|l| serde_json::from_str(&l).expect("scn")).collect();
+    let lines: Vec<String> = f.lines().map(|l| l.unwrap()).filter(|l| !l.trim().is_empty()).collect();
+    let convs: Vec<Vec<u8>> = lines.iter().filter(|l| l.contains("\"convs\"")).flat_map(|l| {
+        let v: Value = serde_json::from_str(l).expect("convs");
+        serde_json::from_value::<Vec<Vec<u8>>>(v["convs"].clone()).expect("convs list")
+    }).collect();
+    let scns: Vec<Scn> = lines.iter().filter(|l| !l.contains("\"convs\"")).map(|l| serde_json::from_str(l).expect("scn")).collect();
     let mut out = std::io::BufWriter::new(std::fs::File::create(outp).unwrap());
     let mut progress = std::fs::File::create(format!("{outp}.progress")).unwrap();
     match field {
@@ -209,6 +306,11 @@ pub fn main(args: &[String]) -> i32 {
         "f64" => run_field::<f64::BaseElement>("f64", &scns, &mut out, &mut progress),
         "f128" => run_field::<f128::BaseElement>("f128", &scns, &mut out, &mut progress),
         _ => return 2,
+    }
+    match field {
+        "f62" => run_convs::<f62::BaseElement>(&convs, &mut out),
+        "f64" => run_convs::<f64::BaseElement>(&convs, &mut out),
+        _ => run_convs::<f128::BaseElement>(&convs, &mut out),
     }
     out.flush().unwrap();
     println!("{}", json!({"scenarios": scns.len()}));
